@@ -237,3 +237,20 @@ CHECKS["C16"] = {
          "checks_quick": 3000, "checks_thorough": 100000, "shards_quick": 4, "shards_thorough": 16, "timeout_quick": 400, "timeout_thorough": 1800},
     ],
 }
+
+CHECKS["C14"] = {
+    "level": "exploration",
+    "technique": "model-based property testing of a pub/sub state machine over real TCP connections with a PING barrier (rapid)",
+    "level_text": ("Generated sequences of SUBSCRIBE / PSUBSCRIBE / UNSUBSCRIBE / PUNSUBSCRIBE (with and without arguments, duplicates allowed) / PUBLISH through any member / disconnect (close or QUIT) / PUBSUB CHANNELS [pattern] / NUMSUB / NUMPAT "
+                   "run over 2-6 raw RESP connections spread over 1-3 members. After every PUBLISH a PING on every subscriber connection is a deterministic barrier; what arrived before the pong must be exactly the deliveries of the model "
+                   "(per connection a set of channels and a set of patterns; channels a, ab, abc, b, news.x; patterns a*, *, ?b, news.*, zzz*, a): exactly one message for a connection with one matching subscription, nothing for a connection without one, "
+                   "and the integer returned by PUBLISH equals the number of messages received. CHANNELS / NUMSUB / NUMPAT must report the distinct channels, the per-channel subscriber connections and the distinct patterns of the queried member."),
+    "level_note": ("trusted: the harness' RESP reader and 20-line glob matcher over that alphabet. When several subscriptions of ONE connection match (channel + pattern) the statement's 'once per connection' and the Redis protocol's 'once per subscription' differ: "
+                   "there the check requires at least one and at most one delivery per matching subscription"),
+    "rule": ("non-trivial = a publish with >= 1 matching subscriber, and either a non-matching subscriber plus a matching one on a member other than the publisher's, or an earlier unsubscribe/disconnect; distinct = distinct case hash"),
+    "assumptions": ["a closed connection is forgotten by its member asynchronously: the harness waits (white box) until the member dropped it before continuing"],
+    "parts": [
+        {"name": "pubsub", "pkg": ROOT, "test": "TestVerifC14", "kind": "rapid",
+         "checks_quick": 150, "checks_thorough": 4000, "shards_quick": 8, "shards_thorough": 16, "timeout_quick": 300, "timeout_thorough": 1800},
+    ],
+}
